@@ -5,7 +5,7 @@ members (component, name, units) whose numeric value is base / scale(units).  Ki
   voi | const (initial value) | cconst (equation over constants) | state (initial value + ODE) | alg (equation)
 Equations live in the home component of the quantity and read the local members of the quantities they use.
 """
-import math, os, subprocess, random
+import math, os, subprocess, random, re
 import exprs as X
 
 # units: name -> (dimension, scale, definition or None for a standard unit)
@@ -194,14 +194,53 @@ NLA_BLOCK = '''  <component name="cnla">
   </component>'''
 
 
-def to_cellml(sysd, rng, nla=False):
+def to_cellml(sysd, rng, nla=False, perm=None, rename=None):
+    """CellML text of the system.  The MathML of every equation is generated once and cached in `sysd`; `perm` (a
+    random.Random) reorders components, variables, equations and connections without changing them; `rename` maps
+    (component index, variable name) to a new name and 'c<i>' to a new component name."""
     qs = sysd['qs']
+    if 'eqtext' not in sysd:
+        sysd['eqtext'] = {}
+        for c in range(sysd['ncomp']):
+            for q in qs:
+                if q.home == c and q.rhs is not None:
+                    lhs = '<ci>%s</ci>' % q.members[c][0]
+                    if q.kind == 'state':
+                        lhs = '<apply><diff/><bvar><ci>%s</ci></bvar>%s</apply>' % (qs[0].members[c][0], lhs)
+                    rhs = mathml(q.rhs, sysd, c, rng)
+                    sysd['eqtext'][q.idx] = '<apply><eq/>%s%s</apply>' % ((rhs, lhs) if rng.random() < 0.2 else (lhs, rhs))
+        sysd['nla_block'] = None
+        if nla:
+            blk = NLA_BLOCK % (rng.choice(['3', '5', '2.5']), rng.choice(['sec', 'abs', 'csch', 'exp', 'arccot']))
+            if rng.random() < 0.6:
+                # consumers of the NLA unknowns: a chain nz = f(nx), nw = g(nz), nu = h(nw, na) listed in random order
+                extra = ['<apply><eq/><ci>nz</ci><apply><times/><cn cellml:units="dimensionless">2</cn><ci>nx</ci></apply></apply>',
+                         '<apply><eq/><ci>nw</ci><apply><plus/><ci>nz</ci><cn cellml:units="dimensionless">1</cn></apply></apply>',
+                         '<apply><eq/><apply><minus/><ci>nw</ci><ci>na</ci></apply><ci>nu</ci></apply>']
+                rng.shuffle(extra)
+                blk = blk.replace('<math', '<variable name="nz" units="dimensionless"/>\n    <variable name="nw" units="dimensionless"/>\n    <variable name="nu" units="dimensionless"/>\n    <math')
+                k = rng.randint(0, 2)
+                blk = blk.replace('<apply><eq/><apply><plus/><ci>nx</ci>', ''.join(extra[:k]) + '<apply><eq/><apply><plus/><ci>nx</ci>').replace('\n    </math>', ''.join(extra[k:]) + '\n    </math>')
+            sysd['nla_block'] = blk
+        sysd['eqorder'] = {c: [q.idx for q in qs if q.home == c and q.rhs is not None] for c in range(sysd['ncomp'])}
+        for c in sysd['eqorder']:
+            rng.shuffle(sysd['eqorder'][c])
+    rn = rename or {}
+    def vn(c, name):
+        return rn.get((c, name), name)
+    def cn_(c):
+        return rn.get('c%d' % c, 'c%d' % c)
     out = ['<?xml version="1.0" encoding="UTF-8"?>', '<model xmlns="http://www.cellml.org/cellml/2.0#" xmlns:cellml="http://www.cellml.org/cellml/2.0#" name="m">']
-    for n, (d, s, x) in UNITS.items():
+    for n, (d, s_, x) in UNITS.items():
         if x:
             out.append('  ' + x)
-    for c in range(sysd['ncomp']):
-        out.append('  <component name="c%d">' % c)
+    corder = list(range(sysd['ncomp']))
+    if perm:
+        perm.shuffle(corder)
+    blocks = []
+    for c in corder:
+        blk = ['  <component name="%s">' % cn_(c)]
+        vl = []
         for q in qs:
             if c in q.members:
                 name, units = q.members[c]
@@ -209,32 +248,49 @@ def to_cellml(sysd, rng, nla=False):
                 if q.home == c and q.init is not None:
                     iv = ' initial_value="%s"' % q.init
                 if q.home == c and q.init_from is not None:
-                    iv = ' initial_value="%s"' % qs[q.init_from].members[c][0]
-                out.append('    <variable name="%s" units="%s" interface="public"%s/>' % (name, units, iv))
+                    iv = ' initial_value="%s"' % vn(c, qs[q.init_from].members[c][0])
+                vl.append('    <variable name="%s" units="%s" interface="public"%s/>' % (vn(c, name), units, iv))
+        if perm:
+            perm.shuffle(vl)
+        blk += vl
+        eo = list(sysd['eqorder'][c])
+        if perm:
+            perm.shuffle(eo)
         eqs = []
-        for q in qs:
-            if q.home == c and q.rhs is not None:
-                lhs = '<ci>%s</ci>' % q.members[c][0]
-                if q.kind == 'state':
-                    lhs = '<apply><diff/><bvar><ci>%s</ci></bvar>%s</apply>' % (qs[0].members[c][0], lhs)
-                rhs = mathml(q.rhs, sysd, c, rng)
-                eqs.append('<apply><eq/>%s%s</apply>' % ((rhs, lhs) if rng.random() < 0.2 else (lhs, rhs)))
+        for k in eo:
+            t = sysd['eqtext'][k]
+            if rn:
+                t = re.sub(r'<ci>([^<]*)</ci>', lambda m: '<ci>%s</ci>' % vn(c, m.group(1)), t)
+            eqs.append(t)
         if eqs:
-            rng.shuffle(eqs)
-            out.append('    <math xmlns="http://www.w3.org/1998/Math/MathML">' + ''.join(eqs) + '</math>')
-        out.append('  </component>')
-    if nla:
-        out.append(NLA_BLOCK % (rng.choice(['3', '5', '2.5']), rng.choice(['sec', 'abs', 'csch', 'exp', 'arccot'])))
+            blk.append('    <math xmlns="http://www.w3.org/1998/Math/MathML">' + ''.join(eqs) + '</math>')
+        blk.append('  </component>')
+        blocks.append('\n'.join(blk))
+    if sysd.get('nla_block'):
+        blocks.append(sysd['nla_block'])
+        if perm:
+            perm.shuffle(blocks)
+    out += blocks
     pairs = {}
     for q in qs:
         for c in q.members:
             if c != q.home:
                 a, b = min(c, q.home), max(c, q.home)
-                pairs.setdefault((a, b), []).append((q.members[a][0], q.members[b][0]))
-    for (a, b), vs in sorted(pairs.items()):
-        out.append('  <connection component_1="c%d" component_2="c%d">' % (a, b))
-        for x, y in vs:
-            out.append('    <map_variables variable_1="%s" variable_2="%s"/>' % (x, y))
+                pairs.setdefault((a, b), []).append((vn(a, q.members[a][0]), vn(b, q.members[b][0])))
+    plist = sorted(pairs.items())
+    if perm:
+        perm.shuffle(plist)
+    for (a, b), vs in plist:
+        if perm:
+            perm.shuffle(vs)
+        if perm and perm.random() < 0.5:
+            out.append('  <connection component_1="%s" component_2="%s">' % (cn_(b), cn_(a)))
+            for x, y in vs:
+                out.append('    <map_variables variable_1="%s" variable_2="%s"/>' % (y, x))
+        else:
+            out.append('  <connection component_1="%s" component_2="%s">' % (cn_(a), cn_(b)))
+            for x, y in vs:
+                out.append('    <map_variables variable_1="%s" variable_2="%s"/>' % (x, y))
         out.append('  </connection>')
     out.append('</model>')
     return '\n'.join(out) + '\n'
